@@ -40,6 +40,18 @@ EXTERNAL_MODEL = {
     "realloc": dict(writes=[0], ret=[0], fresh=True),
     "free": dict(writes=[0], ret=[]),
 }
+# value-only libm / libc routines: take and return scalars (or only read through their pointer arguments)
+for _n in """ldexpf ldexpl fabs fabsf fabsl floor floorf ceil ceilf round roundf trunc truncf fmod fmodf sqrt sqrtf pow log exp
+ copysign copysignf copysignl scalbn scalbnf scalbln scalblnf ilogb ilogbf logb logbf lround lroundf llround llroundf rint rintf
+ lrint lrintf nearbyint nearbyintf fmin fminf fmax fmaxf fdim fdimf nan nanf nextafter nextafterf isnan isinf isfinite isnormal
+ __isnan __isnanf __isinf __isinff __finite __finitef __fpclassify __fpclassifyf __signbit __signbitf
+ abs labs llabs strnlen strcmp strncmp memcmp memchr strchr strrchr""".split():
+    EXTERNAL_MODEL.setdefault(_n, dict(writes=[], ret=[]))
+for _n in list(EXTERNAL_MODEL):
+    if _n.startswith("llvm.fabs."):
+        for _k in ("copysign", "floor", "ceil", "trunc", "round", "rint", "nearbyint", "sqrt", "minnum", "maxnum", "fmuladd", "fma"):
+            for _t in ("f32", "f64"):
+                EXTERNAL_MODEL.setdefault("llvm.%s.%s" % (_k, _t), dict(writes=[], ret=[]))
 
 
 def indirect_kind(ins):
